@@ -1040,9 +1040,11 @@ def to_coq(case, obs):
         # new count the assignment itself is REJECTED by create_program (e.g. a negative window length inside the body):
         # not an accepted assignment, the property says nothing about it.  The model side is still judged.
         return 'CPyOnly'
+    if kind == 'vol' and 'ws2' in obs and case.get('side') == 'guard' and ('tree1' not in obs or 'tree2' not in obs):
+        return 'CCrash'     # the observation lacks the program shape the guard is evaluated on
     if kind == 'vol' and 'ws2' in obs and case.get('side') == 'guard':
-        return '(CVolG %s %s %s %s %s)' % (g_pt(case['pt']), g_env(case['env']), g_env(case['env2']), g_mm(case['mm']),
-                                           g_windows(obs['ws2']))
+        return '(CVolG %s %s %s %s %s %s %s)' % (g_pt(case['pt']), g_env(case['env']), g_env(case['env2']), g_mm(case['mm']),
+                                                 g_loop(obs['tree1']), g_loop(obs['tree2']), g_windows(obs['ws2']))
     if kind == 'vol' and 'ws2' in obs:
         return '(CVol %s %s %s %s %s %s)' % (vlib.gbool(case.get('side') == 'spec'), g_pt(case['pt']), g_env(case['env']), g_env(case['env2']), g_mm(case['mm']),
                                           g_windows(obs['ws2']))
@@ -1123,6 +1125,8 @@ def histogram_keys(case, obs):
                                       '6-20' if len(obs['trace']) <= 20 else '21+'))
         keys.append('trace-maxbuilders:%d' % max([len(e[1]) for e in obs['trace']] + [1]))
         keys.append('trace-maxstack:%d' % min(6, max([len(b) for e in obs['trace'] for b in e[1]] + [1])))
+    if kind == 'vol' and case.get('side') == 'guard' and 'tree1' in obs and 'tree2' in obs:
+        keys.append('volg:' + ('guard-holds-on-observed-program' if X.vwok_py(obs['tree1'], obs['tree2']) else 'guard-fails'))
     if kind == 'vol' and 'ws2' in obs:
         keys.append('vol:' + ('follows' if obs['ws2'] == obs.get('ref') else 'stale') + (':zero-count' if case.get('zero') else ''))
     if 'drop_params' in case:
@@ -1172,10 +1176,9 @@ def classify(case, obs):
             if w not in rest:
                 return None
             rest.remove(w)
-        loop = case['loop']
-        target = loop if case['op'][0] == 'unroll_children' else loop['ch'][case['op'][1]]
-        own = {m[0] for m in target['ms']}
-        if rest and all(w[0] in own for w in rest) and F(obs['after']['dur']) == F(obs['dur0']):
+        # round 5: not "some windows with the right names" but EXACTLY the executions of the unrolled loop's own windows
+        rest = sorted(((w[0], F(w[1]), F(w[2])) for w in rest), key=lambda w: (str(w[0]), w[1], w[2]))
+        if rest and rest == X.expected_unroll_loss(case['loop'], case['op']) and F(obs['after']['dur']) == F(obs['dur0']):
             return 'rewrite-drops-own-measurements'
         return None
     if kind == 'flat':
